@@ -82,6 +82,35 @@ def c13_3(ctx):
     _refcheck(ctx, TU, "create_tx", "tu_create_tx", "inputs-and-unspents-same-list")
     _refcheck(ctx, SP, "Spendable.tx_in", "sp_tx_in", "spendable-outpoint")
     _refcheck(ctx, "pycoin/coins/Tx.py", "Tx.set_unspents", "btx_set_unspents", "unspents-stored")
+    # unspents[i] is the output spent by txs_in[i]: the list unspents_from_db records is filled in the order of the inputs -- each
+    # element is appended inside a loop that ranges over self.txs_in itself (a loop over a grouping of the inputs, a dict keyed by
+    # source transaction, yields first-appearance-of-source order, and amounts / scripts are paired with the wrong inputs)
+    ud = ctx.func(TX, "Tx.unspents_from_db")
+    node = sym.expanded(ctx, ud)
+    stored = [n for n in ast.walk(node) if isinstance(n, ast.Assign) and any(norm(t) == "self.unspents" for t in n.targets)]
+    names = {norm(n.value) for n in stored if isinstance(n.value, ast.Name)}
+    if not names:
+        ctx.undecided("unspents-in-input-order", ctx.where(ud), "unspents_from_db does not store a local list in self.unspents")
+    for nm in sorted(names):
+        fills = []
+        def visit(n, loops):
+            for c in ast.iter_child_nodes(n):
+                if isinstance(c, ast.Call) and isinstance(c.func, ast.Attribute) and c.func.attr in ("append", "extend", "insert") and norm(c.func.value) == nm:
+                    fills.append((c, loops))
+                visit(c, loops + [c] if isinstance(c, (ast.For, ast.While)) else loops)
+        visit(node, [])
+        if not fills:
+            ctx.undecided("unspents-in-input-order", ctx.where(ud), "unspents_from_db: `%s` is not filled by append / extend" % nm)
+        for c, loops in fills:
+            its = [norm(l.iter) for l in loops if isinstance(l, ast.For)]
+            over_inputs = any(t in ("self.txs_in", "enumerate(self.txs_in)", "range(len(self.txs_in))") for t in its)
+            grouped = [t for t in its if t.endswith((".items()", ".values()", ".keys()")) or "groupby(" in t or "sorted(" in t or "set(" in t]
+            if over_inputs and not grouped:
+                ctx.ok("unspents-in-input-order", sample={"filled_in_loop_over": its})
+            elif grouped:
+                ctx.bad("unspents-in-input-order", ctx.where(ud, c), "unspents_from_db appends to the recorded spent outputs inside a loop over `%s`: the list comes out in that collection's order, not in the order of self.txs_in, so unspents[i] is no longer the output txs_in[i] spends" % grouped[0][:60])
+            else:
+                ctx.undecided("unspents-in-input-order", ctx.where(ud, c), "unspents_from_db fills the list in loops over %s; this rule reads loops over self.txs_in" % its)
 
 
 # ------------------------------------------------------------------ C13.4
